@@ -232,6 +232,21 @@ func (r *replayer) replay(v *Violation, prop string) {
 }
 
 func runReplay(bin, path string, v *Violation) string {
+	tries := 1
+	if strings.HasPrefix(v.Harness, "H_C01_") {
+		tries = 40 // Go's map iteration order and the wall clock cannot be pinned natively
+	}
+	res := ""
+	for i := 0; i < tries; i++ {
+		res = runReplayOnce(bin, path, v)
+		if res == "reproduced" {
+			return res
+		}
+	}
+	return res
+}
+
+func runReplayOnce(bin, path string, v *Violation) string {
 	cmd := exec.Command("timeout", "120", bin, path)
 	cmd.Dir = filepath.Join(verifDir, "build")
 	out, _ := cmd.CombinedOutput()
@@ -402,6 +417,12 @@ func cmdRun(args []string) int {
 			if st.Unknown > 0 {
 				bump(2)
 				problems = append(problems, fmt.Sprintf("%s: UNKNOWN %s (%d)", n, st.Label, st.Unknown))
+			}
+		}
+		if prop == "C01" && len(hr.GlobalW) > 0 {
+			bump(2)
+			for g := range hr.GlobalW {
+				problems = append(problems, n+": HIDDEN-STATE write to package-level variable "+g+" on a consensus path (not in any store: invisible to the app hash, lost on restart)")
 			}
 		}
 		if len(hr.UnknownBr) > 0 {
